@@ -14,10 +14,6 @@ open Ndx Ndx.Spec Ndx.C02
 def prefixVals (X : Tensor Int) (ax : Nat) (ix : List Nat) : List Int :=
   (List.range (ix.getD ax 0 + 1)).map (fun j => X.get (ix.set ax j))
 
-/-- Result dtype code of `cumulative_sum`. -/
-def cumsumResultCode (t : Nat) (dtype : Option Nat) : Nat :=
-  match dtype with | some d => d | none => if isUnsignedCode t then 13 else 7
-
 theorem cumsumOp_pointwise (inner X : Tensor Int) (g0 : Int → Int) (axis : Int) (hs : inner.shape = X.shape)
     (hg : ∀ ix, inner.get ix = g0 (X.get ix)) (ix : List Nat) :
     (cumsumOp inner axis).get ix = ((prefixVals X (normAxis X.rank axis) ix).map g0).foldl sumf 0 := by
